@@ -63,9 +63,14 @@ ASSUMPTIONS = [
     "NaN and the infinities are 'not in [0, 1]' and must be rejected; -0.0 equals 0 and is accepted",
     "two objects are 'the same clip / sound event' iff they carry the same uuid; every match position has its own uuid",
     "an AOEF case is judged only when the edited document expresses exactly the intended case: every id it mentions "
-    "is defined in the document (the lenient loader skips unknown ids), the parser accepts the number token "
-    "(pydantic's JSON parser reads the non-standard tokens NaN / Infinity; a document it reports as json_invalid is "
-    "counted vacuous), and an accepted document is read back and must carry the intended lists / numbers, otherwise vacuous",
+    "is defined in the document (the lenient loader skips unknown ids; checked on the document before loading) and "
+    "the parser accepts the number token (pydantic's JSON parser reads the non-standard tokens NaN / Infinity; a "
+    "document it reports as json_invalid is counted vacuous). An accepted document is read back: the loaded object "
+    "must satisfy the model (exists_only_if_valid) and carry what the document says (aoef_loaded_as_written)",
+    "sound events of the clip_evaluation / match spaces have no geometry and no tags (irrelevant to the invariants; "
+    "their validation would dominate the cost); the score / clip carriers hold full objects",
+    "Evaluation re-runs the after-validators of a ClipEvaluation instance it is given, field constraints are not "
+    "re-run on instances: both layers are part of the executed system, not modelled",
     "numeric strings, booleans and NaN clip times are out of the alphabet by decision (DESIGN.md section 3)",
     "Evaluation.score carries no constraint in the schema and is not judged",
 ]
@@ -103,7 +108,7 @@ TAG_SITES = ["clip_predictions", "sound_event_predictions", "sequence_prediction
 CFG = {
     "quick": {"match_len": 3, "aoef_match_len": 3, "ce_parts": 2, "values": VAL_QUICK, "clip_values": CLIP_QUICK,
               "project": "multisets", "project_len": 3},
-    "thorough": {"match_len": 4, "aoef_match_len": 4, "ce_parts": 4, "values": VAL_THOROUGH,
+    "thorough": {"match_len": 4, "aoef_match_len": 4, "ce_parts": 3, "values": VAL_THOROUGH,
                  "clip_values": CLIP_THOROUGH, "project": "sequences", "project_len": 4},
 }
 
@@ -132,7 +137,25 @@ def bounds(tier):
 
 # ---------------------------------------------------------------- the fixed world of valid parts
 class World:
+    """Valid parts and carrier documents, built once per process in independent sections.  A section that cannot be
+    built (only possible on a tree where a *valid* object is rejected) is recorded in self.errors and every case
+    that needs it fails the oracle valid_part_constructs instead of raising out of run_block."""
+
+    NEEDS = {"clip_evaluation": ("core", "ce"), "match": ("core", "ce"), "project": ("core", "project"),
+             "clip": ("core", "carriers"), "score": ("core", "carriers")}
+
     def __init__(self):
+        self.errors = {}
+        for section in ("core", "ce", "project", "carriers"):
+            if section != "core" and "core" in self.errors:
+                self.errors[section] = self.errors["core"]
+                continue
+            try:
+                getattr(self, "build_" + section)()
+            except Exception as e:  # noqa
+                self.errors[section] = "%s: %s" % (type(e).__name__, str(e)[:300])
+
+    def build_core(self):
         self.rec = recording()
         self.clips = [data.Clip(uuid=U("clip%d" % i), recording=self.rec, start_time=float(i), end_time=float(i + 1))
                       for i in range(3)]
@@ -156,24 +179,33 @@ class World:
             self.name_of[self.ann[i].uuid] = str(i)
             self.name_of[self.pred[i].uuid] = str(i)
             self.name_of[self.clips[i].uuid] = i
-        # --- clip evaluation parts
+
+    def build_ce(self):
         self.ca = {s: data.ClipAnnotation(uuid=U("CA"), clip=self.clips[0], sound_events=[self.ann[int(c)] for c in s],
                                           created_on=DT) for s in SUBSETS}
         self.cp = {(s, p): data.ClipPrediction(uuid=U("CP"), clip=self.clips[0 if p == "same" else 1],
                                                sound_events=[self.pred[int(c)] for c in s])
                    for s in SUBSETS for p in PAIRINGS}
-        self.match = {(i, k): data.Match(uuid=U("m%d" % i), source=self.side(self.pred, k[0]),
-                                         target=self.side(self.ann, k[1]), affinity=0.5)
-                      for i in range(4) for k in KINDS}
         self.ca_py = {k: pickle.dumps(v.model_dump()) for k, v in self.ca.items()}
         self.cp_py = {k: pickle.dumps(v.model_dump()) for k, v in self.cp.items()}
-        self.match_py = {k: pickle.dumps(v.model_dump()) for k, v in self.match.items()}
         self.ca_js = {k: v.model_dump_json() for k, v in self.ca.items()}
         self.cp_js = {k: v.model_dump_json() for k, v in self.cp.items()}
-        self.match_js = {k: v.model_dump_json() for k, v in self.match.items()}
-        # --- carriers
+        # dumps of the match of every (position, kind): the dump of a valid two-sided match whose uuid / source /
+        # target are replaced by the dumps of the valid parts (or None)
+        tmpl = data.Match(uuid=U("m0"), source=self.pred[0], target=self.ann[0], affinity=0.5)
+        tp, tj = tmpl.model_dump(), tmpl.model_dump(mode="json")
+        pp, pj = [x.model_dump() for x in self.pred], [x.model_dump(mode="json") for x in self.pred]
+        ap, aj = [x.model_dump() for x in self.ann], [x.model_dump(mode="json") for x in self.ann]
+        self.match_py, self.match_js = {}, {}
+        for i in range(4):
+            for k in KINDS:
+                self.match_py[(i, k)] = pickle.dumps(dict(tp, uuid=U("m%d" % i), source=self.side(pp, k[0]),
+                                                          target=self.side(ap, k[1])))
+                self.match_js[(i, k)] = json.dumps(dict(tj, uuid=str(U("m%d" % i)), source=self.side(pj, k[0]),
+                                                        target=self.side(aj, k[1])))
+        # --- carrier: clip A (a0, a1 / p0, p1) is the clip evaluation under edit; clip B defines the foreign a2 / p2
         ceA = data.ClipEvaluation(uuid=U("ce"), annotations=self.ca["01"], predictions=self.cp[("01", "same")],
-                                  matches=[self.match[(0, "00")], self.match[(1, "11")]])
+                                  matches=[self.make_match(0, "00"), self.make_match(1, "11")])
         ceB = data.ClipEvaluation(
             uuid=U("ceB"),
             annotations=data.ClipAnnotation(uuid=U("CAB"), clip=self.clips[1], sound_events=[self.ann[2]], created_on=DT),
@@ -188,7 +220,8 @@ class World:
             "pred": {x["uuid"] for x in d.get("sound_event_predictions") or []},
             "clip": {x["uuid"] for x in d.get("clips") or []},
         }
-        # --- project
+
+    def build_project(self):
         self.tasks = {(i, c): data.AnnotationTask(uuid=U("task%d" % i), clip=self.clips[c], created_on=DT)
                       for i in range(4) for c in range(3)}
         self.pca = {(i, c): data.ClipAnnotation(uuid=U("pca%d" % i), clip=self.clips[c], created_on=DT)
@@ -203,16 +236,20 @@ class World:
         self.tasks_js = {k: v.model_dump(mode="json") for k, v in self.tasks.items()}
         self.pca_js = {k: v.model_dump(mode="json") for k, v in self.pca.items()}
         self.project_doc = self.save(self.project)
-        # --- score / clip carriers (one clip, one prediction of every kind)
+
+    def build_carriers(self):
+        """One clip, one prediction of every kind (score and clip spaces)."""
         seq = data.Sequence(uuid=U("seq"), sound_events=[self.spred.sound_event])
         self.seqp = data.SequencePrediction(uuid=U("seqp"), sequence=seq, score=0.5,
                                             tags=[data.PredictedTag(tag=self.tag, score=0.5)])
         self.ptag = data.PredictedTag(tag=self.tag, score=0.5)
         self.scp = data.ClipPrediction(uuid=U("sCP"), clip=self.clips[0], sound_events=[self.spred],
                                        sequences=[self.seqp], tags=[data.PredictedTag(tag=self.tag, score=0.5)])
-        sca = data.ClipAnnotation(uuid=U("sCA"), clip=self.clips[0], created_on=DT)
-        self.sce = data.ClipEvaluation(uuid=U("sce"), annotations=sca, predictions=self.scp,
-                                       matches=[data.Match(uuid=U("sm"), source=self.spred, affinity=0.5)], score=0.5)
+        sann = data.SoundEventAnnotation(uuid=U("sa"), sound_event=self.spred.sound_event, created_on=DT)
+        sca = data.ClipAnnotation(uuid=U("sCA"), clip=self.clips[0], sound_events=[sann], created_on=DT)
+        self.sce = data.ClipEvaluation(
+            uuid=U("sce"), annotations=sca, predictions=self.scp, score=0.5,
+            matches=[data.Match(uuid=U("sm"), source=self.spred, target=sann, affinity=0.5)])
         carriers = {
             "annotation_set": data.AnnotationSet(uuid=U("c:as"), clip_annotations=[sca], created_on=DT),
             "annotation_project": data.AnnotationProject(
@@ -228,6 +265,10 @@ class World:
     @staticmethod
     def side(pool, c):
         return None if c == "-" else pool[int(c)]
+
+    def make_match(self, i, k):
+        return data.Match(uuid=U("m%d" % i), source=self.side(self.pred, k[0]), target=self.side(self.ann, k[1]),
+                          affinity=0.5)
 
     @staticmethod
     def save(obj):
@@ -310,7 +351,10 @@ DROP = object()
 
 
 class Paths:
-    """Collects the per-path observations of one case and applies accept_iff_model / paths_agree."""
+    """Collects the per-path observations of one case and applies the oracles.
+
+    A path label is "<base>" or "<base>:<carrier>[/<site>]"; violation classes carry the base (ctor/dict/json/aoef)
+    and, for aoef, the carrier collection type; the full label goes to the detail."""
 
     def __init__(self, out, space, reasons, cls=None):
         self.out, self.space, self.reasons = out, space, reasons
@@ -319,22 +363,33 @@ class Paths:
         self.judged = []
         self.n = 0
 
-    def add(self, path, obs, expressed=True, valid_after=None):
-        """obs: observation; expressed False -> the path could not express the case (vacuous).
-        valid_after: reasons computed on the accepted object read back (None: not read back)."""
+    def _cls(self, path, **kw):
+        base, _, rest = path.partition(":")
+        c = dict(self.cls, space=self.space, path=base, **kw)
+        if base == "aoef" and rest:
+            c["via"] = rest.split("/")[0]
+        return c
+
+    def add(self, path, obs, expressed=True, valid_after=None, as_written=None):
+        """obs: observation.  expressed False: the path cannot express the case (vacuous).
+        valid_after: model reasons of the accepted object as read back (None: nothing accepted).
+        as_written: for aoef, whether the accepted object carries what the document says (None: nothing accepted)."""
         self.n += 1
         out = self.out
         if obs == "unparseable" or not expressed:
             out.vac("accept_iff_model")
         else:
             out.expect("accept_iff_model", obs == self.expected, obs, self.expected,
-                       dict(self.cls, space=self.space, path=path, expected=self.expected, observed=obs,
-                            why=self.reasons[0] if self.reasons else "valid"),
-                       {"model_reasons": self.reasons})
+                       self._cls(path, expected=self.expected, observed=obs,
+                                 why=self.reasons[0] if self.reasons else "valid"),
+                       {"model_reasons": self.reasons, "path": path})
             self.judged.append((path, obs))
         if valid_after is not None:
             out.expect("exists_only_if_valid", not valid_after, valid_after, [],
-                       dict(self.cls, space=self.space, path=path, why=valid_after[0] if valid_after else "valid"))
+                       self._cls(path, why=valid_after[0] if valid_after else "valid"), {"path": path})
+        if as_written is not None:
+            out.expect("aoef_loaded_as_written", as_written, "loaded object differs from the document", "same content",
+                       self._cls(path), {"path": path})
 
     def finish(self):
         out = self.out
@@ -346,16 +401,24 @@ class Paths:
         else:
             pattern = " / ".join("%s: %s" % (o, ",".join(sorted(set(ps)))) for o, ps in sorted(groups.items()))
             out.expect("paths_agree", len(groups) == 1, pattern, "one verdict on every path",
-                       dict(self.cls, space=self.space, pattern=pattern))
+                       dict(self.cls, space=self.space, pattern=pattern),
+                       {"verdicts": [[p, o] for p, o in self.judged]})
         out.transitions = self.n
         out.validated = len(self.judged)
         out.klass = "%s:%s:%s" % (self.space, "invalid-" + self.reasons[0] if self.reasons else "valid",
                                   "+".join(sorted({o for _, o in self.judged})) or "unjudged")
 
 
-def jtext(v):
-    """JSON token of a value of the alphabet (Python writes NaN / Infinity / -Infinity for the non-finite ones)."""
-    return json.dumps(v)
+def world_for(case, out):
+    """The world, or None after recording that a valid part of this space could not be built."""
+    w = W()
+    for section in World.NEEDS[case["space"]]:
+        if section in w.errors:
+            out.fail("valid_part_constructs", w.errors[section], "every valid part and carrier can be built and saved",
+                     {"space": case["space"], "section": section, "error": w.errors[section].split(":")[0]})
+            out.transitions, out.validated, out.klass = 1, 0, case["space"] + ":world_failed"
+            return None
+    return w
 
 
 # ---------------------------------------------------------------- space: clip_evaluation
@@ -412,8 +475,10 @@ def find_ce(ev, uuid):
 
 
 def run_clip_evaluation(case):
-    w = W()
     out = Out(case)
+    w = world_for(case, out)
+    if w is None:
+        return out
     a, p, pairing, seq = case["ann"], case["pred"], case["pairing"], case["matches"]
     intended = (list(a), list(p), pairing == "same",
                 [(None if k[0] == "-" else k[0], None if k[1] == "-" else k[1]) for k in seq])
@@ -426,7 +491,7 @@ def run_clip_evaluation(case):
     # 1 constructor
     obs, obj = observe(lambda: data.ClipEvaluation(
         uuid=U("ce"), annotations=w.ca[a], predictions=w.cp[(p, pairing)],
-        matches=[w.match[(i, k)] for i, k in enumerate(seq)]))
+        matches=[w.make_match(i, k) for i, k in enumerate(seq)]))
     P.add("ctor", obs, True, after(obj) if obj is not None else None)
     # 2 dict
     d = {"uuid": U("ce"), "annotations": pickle.loads(w.ca_py[a]), "predictions": pickle.loads(w.cp_py[(p, pairing)]),
@@ -442,16 +507,15 @@ def run_clip_evaluation(case):
     if case.get("aoef", True):
         doc, expressed = eval_doc_for(w, a, p, pairing, [match_entry(w, i, k) for i, k in enumerate(seq)])
         obs, ev = aoef_load(doc)
-        va = None
+        va = aw = None
         if ev is not None:
             ce = find_ce(ev, U("ce"))
-            if ce is None:
-                expressed = False
-            else:
+            aw = ce is not None
+            if aw:
                 got = read_ce(w, ce)
                 va = inv.clip_evaluation_reasons(*got)
-                expressed = expressed and got == intended
-        P.add("aoef", obs, expressed, va)
+                aw = got == intended
+        P.add("aoef", obs, expressed, va, aw)
     P.finish()
     out.nontrivial = bool(seq) and bool(a or p)
     return out
@@ -459,8 +523,10 @@ def run_clip_evaluation(case):
 
 # ---------------------------------------------------------------- space: match
 def run_match(case):
-    w = W()
     out = Out(case)
+    w = world_for(case, out)
+    if w is None:
+        return out
     sf, tf, an, sn = case["source"], case["target"], case["affinity"], case["score"]
     aff, score = VALUES[an], VALUES[sn]
     has_s, has_t = sf == "obj", tf == "obj"
@@ -519,17 +585,14 @@ def run_match(case):
         e["target"] = None
     doc, expressed = eval_doc_for(w, "0" if has_t else "", "0" if has_s else "", "same", [e])
     obs, ev = aoef_load(doc, nonstd)
-    va = None
+    va = aw = None
     if ev is not None:
         ce = find_ce(ev, U("ce"))
-        if ce is None or len(ce.matches) != 1:
-            expressed = False
-            if ce is not None:
-                va = inv.clip_evaluation_reasons(*read_ce(w, ce))
-        else:
+        aw = ce is not None and len(ce.matches) == 1
+        if aw:
             va = after(ce.matches[0])
-            expressed = expressed and same(ce.matches[0])
-    P.add("aoef", obs, expressed, va)
+            aw = same(ce.matches[0])
+    P.add("aoef", obs, expressed, va, aw)
     P.finish()
     out.nontrivial = an not in BORING or sn not in BORING or not (has_s and has_t)
     return out
@@ -537,8 +600,10 @@ def run_match(case):
 
 # ---------------------------------------------------------------- space: project
 def run_project(case):
-    w = W()
     out = Out(case)
+    w = world_for(case, out)
+    if w is None:
+        return out
     tasks, annotated = case["tasks"], case["annotated"]
     reasons = inv.project_reasons(tasks, annotated)
     P = Paths(out, "project", reasons)
@@ -584,14 +649,13 @@ def run_project(case):
         new_c.append(dict(c_tmpl.get(cid, {}), uuid=str(U("pca%d" % i)), clip=cid))
     dd["tasks"], dd["clip_annotations"] = new_t, new_c
     obs, pr = aoef_load(dict(base, data=dd))
-    va = None
+    va = aw = None
     if pr is not None:
-        if not isinstance(pr, data.AnnotationProject):
-            expressed = False
-        else:
+        aw = isinstance(pr, data.AnnotationProject)
+        if aw:
             va = after(pr)
-            expressed = expressed and read(pr) == (list(tasks), list(annotated))
-    P.add("aoef", obs, bool(expressed), va)
+            aw = read(pr) == (list(tasks), list(annotated))
+    P.add("aoef", obs, bool(expressed), va, aw)
     P.finish()
     out.nontrivial = bool(tasks) and bool(annotated)
     return out
@@ -607,8 +671,10 @@ def loaded_clip(kind, obj):
 
 
 def run_clip(case):
-    w = W()
     out = Out(case)
+    w = world_for(case, out)
+    if w is None:
+        return out
     s, e = VALUES[case["start"]], VALUES[case["end"]]
     reasons = inv.clip_reasons(s, e)
     P = Paths(out, "clip", reasons)
@@ -633,15 +699,15 @@ def run_clip(case):
     for kind in CLIP_CARRIERS:
         doc, found = edit_entry(w.carrier_docs[kind], "clips", str(U("clip0")), start_time=s, end_time=e)
         obs, obj = aoef_load(doc)
-        va, expressed = None, found
+        va = aw = None
         if obj is not None:
             try:
                 c = loaded_clip(kind, obj)
                 va = after(c)
-                expressed = expressed and same(c)
+                aw = same(c)
             except (IndexError, AttributeError):
-                expressed = False
-        P.add("aoef:" + kind, obs, expressed, va)
+                aw = False
+        P.add("aoef:" + kind, obs, found, va, aw)
     P.finish()
     out.nontrivial = case["start"] != case["end"]
     return out
@@ -655,8 +721,10 @@ def loaded_cp(kind, obj):
 
 
 def run_score(case):
-    w = W()
     out = Out(case)
+    w = world_for(case, out)
+    if w is None:
+        return out
     cname, vn = case["cls"], case["value"]
     v = VALUES[vn]
     optional = OPTIONAL_SCORE[cname]
@@ -686,15 +754,15 @@ def run_score(case):
     def aoef(kind, listname, uuid, get, label, **changes):
         doc, found = edit_entry(w.carrier_docs[kind], listname, uuid, **changes)
         obs, obj = aoef_load(doc, nonstd)
-        va, expressed = None, found
+        va = aw = None
         if obj is not None:
             try:
                 x = get(obj)
                 va = after(x)
-                expressed = expressed and same(x)
+                aw = same(x)
             except (IndexError, AttributeError):
-                expressed = False
-        P.add(label, obs, expressed, va)
+                aw = False
+        P.add(label, obs, found, va, aw)
 
     if cname == "PredictedTag":
         direct(data.PredictedTag, w.ptag, lambda: data.PredictedTag(tag=w.tag, score=v))
